@@ -52,7 +52,8 @@ type req struct {
 	hash  felt.Felt
 	poll  bool // latest: issued with the run context (the poll loop) rather than a stream context
 	occ   int
-	key   string
+	base  string // content-derived part of the key
+	key   string // base#occurrence, assigned by the scheduler when it first sees the request
 	ctx   context.Context
 	ch    chan resp
 	born  int      // scheduler step at which the request was first seen parked
@@ -83,13 +84,10 @@ func (w *world) park(ctx context.Context, r *req) resp {
 	r.ctx = ctx
 	r.ch = make(chan resp, 1)
 	r.verAt = w.cur
-	base := fmt.Sprintf("%s/%06d/%s/%04d/%s", r.kind, r.n, r.ident, r.txc, r.hash.String())
+	r.base = fmt.Sprintf("%s/%06d/%s/%04d/%s", r.kind, r.n, r.ident, r.txc, r.hash.String())
 	if r.poll {
-		base += "/poll"
+		r.base += "/poll"
 	}
-	w.occ[base]++
-	r.occ = w.occ[base]
-	r.key = fmt.Sprintf("%s#%05d", base, r.occ)
 	w.parked = append(w.parked, r)
 	w.mu.Unlock()
 	return <-r.ch
@@ -120,9 +118,27 @@ func (s source) PreConfirmedBlockLatest(ctx context.Context, ident string, txc u
 	return x.upd, x.num, x.err
 }
 
+// Class: the poller fetches the definitions of the classes a pre-confirmed block declares one by
+// one, in the iteration order of a Go map, i.e. in an order the tape does not control. Only the
+// first call of such a burst parks (under a key without the class hash); the scheduler's answer
+// lets the whole burst through or fails it. A burst ends with the next pre-confirmed block answer.
 func (s source) Class(ctx context.Context, h *felt.Felt) (core.ClassDefinition, error) {
-	x := s.w.park(ctx, &req{kind: "class", hash: *h})
-	return x.class, x.err
+	w := s.w
+	w.mu.Lock()
+	open := w.classBurst
+	w.mu.Unlock()
+	if !open {
+		if x := w.park(ctx, &req{kind: "class"}); x.err != nil {
+			return nil, x.err
+		}
+	}
+	w.mu.Lock()
+	def := w.classDefs[*h]
+	w.mu.Unlock()
+	if def == nil {
+		return nil, errNotFound
+	}
+	return def, nil
 }
 
 // ---- world -------------------------------------------------------------------------------------
@@ -224,14 +240,24 @@ type world struct {
 	revertsN       int
 	maxParkedBlock int
 
-	// hooks for C20
-	onObserve func()
+	classBurst bool                               // a burst of Class calls has been let through
+	classDefs  map[felt.Felt]core.ClassDefinition // what Class serves (C20)
+
+	// C20: the committed side only carries the head around; C06's revert-justification and liveness
+	// oracles are not evaluated there
+	noSyncOracle bool
 }
 
 func (w *world) rel() time.Duration { return time.Since(w.start) }
 
+// debugOut makes the development test print every trace line (never set by the check driver).
+var debugOut bool
+
 func (w *world) logf(format string, a ...any) {
 	w.c.Logf("s%03d "+format, append([]any{w.step}, a...)...)
+	if debugOut {
+		fmt.Printf("s%03d "+format+"\n", append([]any{w.step}, a...)...)
+	}
 }
 
 func drawConfig(c *sim.Ctx, preconf bool) config {
@@ -638,13 +664,54 @@ func (w *world) choose(label string, opts []option) {
 	}
 }
 
-// sortedParked returns the parked requests ordered by their content-derived key and notes the
-// newly seen ones in the trace (in that order, never in arrival order).
-func (w *world) sortedParked() []*req {
+// settle waits for quiescence and returns the parked requests ordered by their content-derived
+// key. Requests that are already cancelled when the scheduler first sees them are handed their
+// context error at once, silently: whether such a call was made at all depends on a race inside
+// the node (a fetcher picking up its next height vs. the verifier cancelling the stream context in
+// the same step), and both outcomes leave the node in the same state. A request that was seen
+// alive at an earlier quiescence stays parked when its context is cancelled later; what happens to
+// it is a scheduler choice. Newly seen requests are numbered and noted in the trace in key order,
+// never in arrival order.
+func (w *world) settle() []*req {
+	for {
+		synctest.Wait()
+		w.mu.Lock()
+		var gone []*req
+		kept := w.parked[:0]
+		for _, r := range w.parked {
+			if !w.nSeen[r] && r.cancelled() {
+				gone = append(gone, r)
+			} else {
+				kept = append(kept, r)
+			}
+		}
+		w.parked = kept
+		w.mu.Unlock()
+		if len(gone) == 0 {
+			break
+		}
+		for _, r := range gone {
+			r.ch <- resp{err: r.ctx.Err()}
+		}
+	}
 	w.mu.Lock()
 	ps := append([]*req(nil), w.parked...)
 	w.mu.Unlock()
-	sort.Slice(ps, func(i, j int) bool { return ps[i].key < ps[j].key })
+	sort.SliceStable(ps, func(i, j int) bool {
+		if ps[i].base != ps[j].base {
+			return ps[i].base < ps[j].base
+		}
+		return ps[i].occ < ps[j].occ
+	})
+	// unseen requests have occ 0 and sort before the seen ones of the same base; number them
+	for _, r := range ps {
+		if !w.nSeen[r] {
+			w.occ[r.base]++
+			r.occ = w.occ[r.base]
+			r.key = fmt.Sprintf("%s#%05d", r.base, r.occ)
+		}
+	}
+	sort.SliceStable(ps, func(i, j int) bool { return ps[i].key < ps[j].key })
 	nb := 0
 	for _, r := range ps {
 		if r.kind == "block" {
